@@ -147,6 +147,7 @@ class World:
         self._low = -1
         self._rw = list(self.schedule.get("choices", []))
         self._rw_i = 0
+        self._burst = 0
         self._rw_cycle = int(self.schedule.get("cycle", 0))
         self.faults = list(faults or [])
         self.spawn_count = 0
@@ -316,9 +317,15 @@ class World:
     def _choice(self):
         d = self.decision_no
         self.decision_no += 1
+        if self._burst:
+            self._burst -= 1
+            return -1                 # timer burst in progress: keep firing eligible timers
         if self._pre:
             c = self._pre.get(d)
             if c is not None:
+                if c <= -50:
+                    self._burst = 10  # from here on, the next decisions fire every eligible timer ("all at once")
+                    return -1
                 return c
         if self._rw_i < len(self._rw):
             c = self._rw[self._rw_i]
